@@ -1,0 +1,24 @@
+//go:build verif
+
+package par2
+
+// Hooks for the verification harness in /verif (build tag verif only): the
+// package's own entry points with the file I/O interface supplied by the caller.
+
+// VerifFileIO is the package's file I/O interface.
+type VerifFileIO = fileIO
+
+// VerifCreate is Create over the given file I/O.
+func VerifCreate(io VerifFileIO, parPath string, filePaths []string, options CreateOptions) error {
+	return create(io, parPath, filePaths, options)
+}
+
+// VerifVerify is Verify over the given file I/O.
+func VerifVerify(io VerifFileIO, parPath string, options VerifyOptions) (VerifyResult, error) {
+	return verify(io, parPath, options)
+}
+
+// VerifRepair is Repair over the given file I/O.
+func VerifRepair(io VerifFileIO, parPath string, options RepairOptions) (RepairResult, error) {
+	return repair(io, parPath, options)
+}
